@@ -298,6 +298,20 @@ Definition valid (c : tcase) : Prop :=
   t_v c = current /\ t_nv c = ncurrent /\ t_na_always_skip c = false /\
   (1 <= max_bs (t_limits c))%N /\ (1 <= default_tmo (t_limits c))%N /\ 0 <= t_proc c.
 
+Lemma validb_valid c : validb c = true -> valid c.
+Proof.
+  unfold validb, valid. intros H.
+  repeat match type of H with _ && _ = true => apply andb_true_iff in H; destruct H as [H ?] end.
+  repeat match goal with X : negb _ = true |- _ => apply negb_true_iff in X end.
+  repeat split.
+  - destruct (t_v c) as [a b d]; cbn in *; subst; reflexivity.
+  - destruct (t_nv c) as [a b]; cbn in *; subst; reflexivity.
+  - assumption.
+  - apply N.leb_le; assumption.
+  - apply N.leb_le; assumption.
+  - apply Z.leb_le; assumption.
+Qed.
+
 Lemma negotiate_pos lim na k opts :
   (1 <= max_bs lim)%N -> (1 <= default_tmo lim)%N ->
   (1 <= n_bs (negotiate ncurrent lim na k opts))%N /\ (1 <= n_tmo (negotiate ncurrent lim na k opts))%N.
